@@ -112,6 +112,26 @@ def gen_mo_cases(tier, seed):
                       "maxlen": 20, "flags": 32 | (16 if i % 5 == 0 else 0) | rnd.choice([0, 1]), "seed": rnd.randrange(1, 10 ** 9),
                       "sim_seed": rnd.randrange(1, 10 ** 6), "routing": rnd.choice(["NONE", "NR", "NLNR"]), "buffer_kb": 0,
                       "policy": ["racer", "racer", "racer", "starve", "racer", "racer", "racer", "uniform"][i % 8]})
+    # directed: subpaths of total length 253..257 (lines of 253..257 bytes are among the generated lengths of every case)
+    for i in range(4 if tier == "quick" else 30):
+        nodes, ppn = LAYOUTS[i % len(LAYOUTS)]
+        cases.append({"kind": "mo", "nodes": nodes, "ppn": ppn, "L": rnd.choice([0, 64, -1]), "append": 0, "nsub": 5, "nwrites": 12, "maxlen": 300,
+                      "flags": 64 | rnd.choice([0, 1]) | rnd.choice([0, 2]), "seed": rnd.randrange(1, 10 ** 9), "sim_seed": rnd.randrange(1, 10 ** 6),
+                      "routing": rnd.choice(["NONE", "NR", "NLNR"])})
+    # directed: two communicators of different size in one process, a multi_output on each, the same subpath names on both
+    for i in range(8 if tier == "quick" else 60):
+        # one node (a split of a multi-node layout gives nodes with different rank counts, which the routed layouts do not support) and
+        # default buffering (with capacity 0 a sender on one communicator waits for a peer that only polls the other one: the C03 finding)
+        nodes, ppn = [(1, 3), (1, 4), (1, 2), (1, 4)][i % 4]
+        cases.append({"kind": "mo2", "nodes": nodes, "ppn": ppn, "order": i % 2, "nwrites": rnd.choice([10, 30]), "seed": rnd.randrange(1, 10 ** 9),
+                      "sim_seed": rnd.randrange(1, 10 ** 6), "routing": rnd.choice(["NONE", "NR", "NLNR"]), "buffer_kb": None, "isends_wait": 4,
+                      "num_irecvs": 8})
+    if tier != "quick":
+        # lines of 65535 / 65536 bytes; more than 65536 output objects in one process with the first one still alive
+        for (nodes, ppn) in ((1, 2), (2, 2)):
+            cases.append({"kind": "mo", "nodes": nodes, "ppn": ppn, "L": 64, "append": 0, "nsub": 2, "nwrites": 20, "maxlen": 65536, "flags": 0,
+                          "seed": rnd.randrange(1, 10 ** 9), "sim_seed": rnd.randrange(1, 10 ** 6), "routing": "NONE"})
+        cases.append({"kind": "many", "nodes": 1, "ppn": 2, "nobj": 65600, "seed": 1, "sim_seed": 1, "routing": "NONE", "timeout": 1500})
     # directed: big lines against the default 1 MiB buffer (crosses the real threshold)
     cases.append({"kind": "mo", "nodes": 1, "ppn": 2, "L": -1, "append": 0, "nsub": 2, "nwrites": 6, "maxlen": 400000, "flags": 1,
                   "seed": seed + 5, "sim_seed": seed})
@@ -124,13 +144,17 @@ def gen_mo_cases(tier, seed):
 
 
 def run_case(binary, case):
-    if case["kind"] == "mo":
+    if case["kind"] == "mo2":
+        args = ["mo2", case["seed"], case["order"], case["nwrites"]]
+    elif case["kind"] == "many":
+        args = ["many", case["nobj"]]
+    elif case["kind"] == "mo":
         args = ["mo", case["seed"], case["L"], case["append"], case["nsub"], case["nwrites"], case["maxlen"], case["flags"]]
     else:
         args = ["day", case["seed"], case["L"], case["nwrites"], ",".join(map(str, case["ts"]))]
     # a local time zone far from UTC: localtime instead of gmtime would show
     return C.run_sim(binary, args, nodes=case["nodes"], ppn=case["ppn"], sim_seed=case.get("sim_seed", 1), policy=case.get("policy", "uniform"),
-                     want_log=False, timeout=120,
+                     want_log=False, timeout=case.get("timeout", 120),
                      env=env_of(case, {"TZ": "XYZ+11:30"}))
 
 
@@ -322,6 +346,49 @@ def check_mo(res, case, sr, model_ok):
                     "a_file": s0, "bytes_on_disk": len(g0["files"].get(s0, b"")), "writes_per_rank": {r: len(v) for r, v in g0["writes"].items()}})
 
 
+def check_trees(res, case, sr):
+    """mo2 / many: every tree rank 0 dumped holds, per file, exactly the lines written to it (each object judged on its own prefix)"""
+    ranks = case["nodes"] * case["ppn"]
+    cs = dict(case)
+    if sr.verdict != "ok":
+        res.oracle_failures.append({"what": f"{case['kind']} run did not finish: {sr.verdict}", "signature": "c19-run-" + sr.verdict.split(":")[0],
+                                    "case": dict(cs, stderr=sr.stderr[-400:])})
+        return
+    expect = collections.defaultdict(list)     # (tree, path) -> lines
+    real = {}
+    for r in range(ranks):
+        tree = ""
+        for l in sr.outs.get(r, []):
+            w = l.split(" ")
+            if w[0] == "w2":
+                expect[(w[1], unhex(w[2]).decode())].append(unhex(w[3]))
+            elif w[0] == "w":
+                expect[("", unhex(w[1]).decode())].append(unhex(w[2]))
+            elif w[0] == "tree":
+                tree = w[1]
+            elif w[0] == "f":
+                real[(tree, unhex(w[1]).decode())] = unhex(w[2])
+    if set(real) != set(expect):
+        res.oracle_failures.append({"what": "files on disk differ from the subpaths written", "signature": "c19-file-set",
+                                    "case": dict(cs, extra=sorted(set(real) - set(expect))[:4], missing=sorted(set(expect) - set(real))[:4])})
+    for key, lines in expect.items():
+        content = real.get(key)
+        if content is None:
+            continue
+        got = content[:-1].split(b"\n") if content.endswith(b"\n") else content.split(b"\n")
+        if collections.Counter(got) != collections.Counter(lines):
+            miss = collections.Counter(lines) - collections.Counter(got)
+            extra = collections.Counter(got) - collections.Counter(lines)
+            res.oracle_failures.append({"what": f"tree {key[0]!r} file {key[1]}: lines on disk are not exactly the lines written to it through that object "
+                                                f"({sum(miss.values())} missing, {sum(extra.values())} extra)",
+                                        "signature": "c19-two-comms-lines" if case["kind"] == "mo2" else "c19-many-objects-lines",
+                                        "case": dict(cs, tree=key[0], sub=key[1], missing=[hx(x)[:60] for x in list(miss)[:3]])})
+    res.evaluations += 1
+    res.traces_validated += 1
+    res.count(case["kind"])
+    res.distinct.add((case["kind"], case["nodes"], case["ppn"], case.get("order"), case.get("routing")))
+
+
 # ------------------------------------------------------------------ daily_output
 
 def boundary_timestamps(rnd, tier):
@@ -433,7 +500,9 @@ def run(tier, seed, model_ok=True):
     cases = rotate_env(gen_mo_cases(tier, seed) + gen_day_cases(tier, seed))
     runs = C.pmap(lambda c: (c, run_case(binary, c)), cases)
     for c, sr in runs:
-        if c["kind"] == "mo":
+        if c["kind"] in ("mo2", "many"):
+            check_trees(res, c, sr)
+        elif c["kind"] == "mo":
             check_mo(res, c, sr, model_ok)
         else:
             check_day(res, c, sr, model_ok)
@@ -450,10 +519,13 @@ def replay(data):
     if binary is None:
         print(err[-500:])
         return False
-    keep = {k: case[k] for k in ("kind", "nodes", "ppn", "L", "append", "nsub", "nwrites", "maxlen", "flags", "seed", "sim_seed", "ts") + ENV_KEYS if k in case}
+    keep = {k: case[k] for k in ("kind", "nodes", "ppn", "L", "append", "nsub", "nwrites", "maxlen", "flags", "seed", "sim_seed", "ts", "order", "nobj", "timeout") + ENV_KEYS if k in case}
     sr = run_case(binary, keep)
     res = C.Result()
-    (check_mo if keep["kind"] == "mo" else check_day)(res, keep, sr, True)
+    if keep["kind"] in ("mo2", "many"):
+        check_trees(res, keep, sr)
+    else:
+        (check_mo if keep["kind"] == "mo" else check_day)(res, keep, sr, True)
     print("verdict", sr.verdict, "oracle failures", len(res.oracle_failures), "correspondence failures", len(res.corr_failures))
     for f in (res.oracle_failures + res.corr_failures)[:5]:
         print(" ", f.get("what"), f.get("signature", f.get("relation")))
